@@ -193,7 +193,7 @@ PROPS = {
         "not_decided": [
             "everything the builders delegate to http-types (header insertion, content types for string/JSON/form/byte bodies, query encoding): third-party code without contracts",
             "the ORDER of headers in the protocol request is the hash map's iteration order (C11, F6) - C14 compares header sets",
-            "that each API call emits exactly one request effect: the endpoint closure asks the shell exactly once (unit H, under C16); the command API's build() is an async closure over Command::request_from_shell (unit X proves that constructor)",
+            "that each API call emits exactly one request effect: proved per piece - the endpoint closure of Client::send (capability API) and the lifted task of command::RequestBuilder::build (command API) each ask the shell exactly once with exactly the converted request; `Command::request_from_shell(op).into_future(ctx).await` is an assumed call (its constructor is proved in unit X)",
         ],
     },
     "C15": {
@@ -206,7 +206,8 @@ PROPS = {
         ],
         "not_decided": [
             "body expectations (string with charset, JSON): decode_body / body_json delegate to encoding_rs and serde_json",
-            "that each API produces exactly ONE outcome event: RequestBuilder::send (capability API) and build() (command API) are async closures; their Err pass-through arms are not extracted",
+            "capability API: RequestBuilder::send is proved to send the request once, call the event constructor once, send one outcome event and pass a chain error through unchanged; that the success outcome IS Response::new(..).and_then(decode) composed is proved only piecewise (Response::new's contract, the decode closure's contract, Result::and_then assumed), not as one equation",
+            "command API: the lifted task of build() is proved to ask the shell once and to pass a shell error through unchanged; the success arm as above",
         ],
     },
     "C16": {
